@@ -600,4 +600,4 @@ impl<H: Host> Z80Bus for ZXController<H> {
 
 #[cfg(kani)]
 #[path = "/verif/hooks/core/controller.rs"]
-mod verif_hooks;
+pub(crate) mod verif_hooks;
